@@ -31,6 +31,8 @@ pub enum DemandKind {
     Pickup(i32),
     DynPickup(i32),
     DynDelivery(i32),
+    /// one single job with a static pickup AND a static delivery (an exchange): (pickup, delivery)
+    Exchange(i32, i32),
 }
 
 #[derive(Clone, Debug)]
@@ -57,7 +59,7 @@ fn place(loc: usize, service: f64, windows: &[(f64, f64)]) -> PlaceT {
     PlaceT { loc, service, windows: windows.to_vec() }
 }
 
-/// Task templates. Jobs: 0..=9, 12, 14, 15, 16 singles, job 10 = multi (mp, md), job 11 = multi (np, nd), job 13 = multi (qp1, qp2, qd).
+/// Task templates. Jobs: 0..=9, 12, 14..=18 singles, job 10 = multi (mp, md), job 11 = multi (np, nd), job 13 = multi (qp1, qp2, qd).
 pub fn tasks() -> Vec<TaskT> {
     use DemandKind::*;
     let t = |id, demand, places: Vec<PlaceT>, job, value| TaskT { id, demand, places, job, value };
@@ -88,6 +90,10 @@ pub fn tasks() -> Vec<TaskT> {
         t("b36", None, vec![place(0, 0., &[(36., 50.)])], 15, 0.),
         // two alternative places: the first one lies completely behind the end of every closed shift, the second is usable
         t("t2", None, vec![place(1, 0., &[(2000., 3000.)]), place(2, 0., &[(0., 50.)])], 16, 0.),
+        // exchanges: one single job which hands over and takes back (static pickup and static delivery in one demand); the
+        // second takes back more than it hands over
+        t("x1", Exchange(1, 1), vec![place(1, 0., &[(0., MAXT)])], 17, 0.),
+        t("x2", Exchange(2, 1), vec![place(2, 0., &[(0., MAXT)])], 18, 0.),
     ]
 }
 
@@ -236,6 +242,10 @@ impl Lab {
                 DemandKind::Pickup(d) => b.demand(Demand::pickup(d)),
                 DemandKind::DynPickup(d) => b.demand(Demand::pudo_pickup(d)),
                 DemandKind::DynDelivery(d) => b.demand(Demand::pudo_delivery(d)),
+                DemandKind::Exchange(p, d) => b.demand(Demand {
+                    pickup: (SingleDimLoad::new(p), SingleDimLoad::default()),
+                    delivery: (SingleDimLoad::new(d), SingleDimLoad::default()),
+                }),
             };
             let value = t.value;
             b = b.dimension(move |d| {
@@ -435,7 +445,7 @@ pub fn sim(tasks: &[TaskT], vehicle: &VehicleT, seq: &[Visit], departure: f64) -
     let mut load: i32 = seq
         .iter()
         .map(|v| match tasks[v.task].demand {
-            DemandKind::Delivery(d) => d,
+            DemandKind::Delivery(d) | DemandKind::Exchange(_, d) => d,
             _ => 0,
         })
         .sum();
@@ -462,6 +472,7 @@ pub fn sim(tasks: &[TaskT], vehicle: &VehicleT, seq: &[Visit], departure: f64) -
         load += match task.demand {
             DemandKind::Delivery(d) | DemandKind::DynDelivery(d) => -d,
             DemandKind::Pickup(d) | DemandKind::DynPickup(d) => d,
+            DemandKind::Exchange(p, d) => p - d,
             DemandKind::None => 0,
         };
         if load > vehicle.capacity || load < 0 {
